@@ -20,3 +20,28 @@ func (e *Engine) VerifC15SetReplica(on bool) {
 	}
 	e.rw.mu.Unlock()
 }
+
+// VerifC15WaitQLen is the number of callers of Do that are parked until the binlog commits
+// (WaitCommit mode: write callers behind their own event, read callers behind uncommitted
+// writes). The durability-window family of the C15 harness drives requests from goroutines and
+// uses this to learn, without any timing assumption, that a request has finished its callback
+// and is parked (the queue grows by one under waitQMx inside doWithoutWait) and how many
+// parked callers a Commit callback has released (binlogNotifyWaited runs inside Commit).
+func (e *Engine) VerifC15WaitQLen() int {
+	e.waitQMx.Lock()
+	defer e.waitQMx.Unlock()
+	return len(e.waitQ)
+}
+
+// VerifC15StopTxLoop ends the commit-timer goroutine right after open. txLoop commits the SQLite
+// transaction once per second of WALL CLOCK and, in WaitCommit mode, holds the read-write
+// connection's mutex while it waits for the binlog to become durable up to the last appended
+// event. With a binlog whose durable offset is moved by the harness that would make the outcome
+// of a history depend on wall time; without the loop the SQLite file simply keeps the state of
+// the last commit (Open / Close), which is always at or behind the durable binlog prefix - the
+// same relation the loop maintains (it commits only after binlogWaitDBSync).
+func (e *Engine) VerifC15StopTxLoop() {
+	if e.stop != nil {
+		e.stop()
+	}
+}
